@@ -47,6 +47,14 @@ def main():
             res['suite_out'] = out[-1500:]
             res['suite_ok'] = ('FAILED' not in out) and ('error' not in out) and ('test result: ok' in out)
             for rel, src in meta.get('demo_files', {}).items():
+                if rel.endswith('::append_to_mod_tests'):
+                    # the demo is a #[test] fn appended to the file's trailing `mod tests { … }`
+                    f = os.path.join(wt, rel.split('::')[0])
+                    body = open(f).read().rstrip('\n')
+                    assert body.endswith('}'), 'unexpected end of ' + f
+                    open(f, 'w').write(body[:-1] + '\n' + open(os.path.join(d, src)).read() + '\n}\n')
+                    res['demo_appended_to'] = rel
+                    continue
                 dst = os.path.join(wt, rel)
                 os.makedirs(os.path.dirname(dst), exist_ok=True)
                 shutil.copy(os.path.join(d, src), dst)
